@@ -25,6 +25,18 @@ theorem beBytes_beNat (b : Bytes) : beBytes b.length (beNat b) = b := by
   simp only [List.length_reverse] at this
   simp [beNat, beBytes, this]
 
+/-! ## the random source is read through io.ReadFull only -/
+
+theorem rsaPad_eq_core (P : Prims) (Q : NumPrims) (key : PubKey) (data tape : Bytes) :
+    rsaPad P Q key data tape = rsaPadCore P Q key data tape := by
+  have h : readsViaReadFull Facts.C14.padRandomReads = true := by decide
+  unfold rsaPad; rw [h]; rfl
+
+theorem rsaEncryptHashed_eq_core (P : Prims) (Q : NumPrims) (key : PubKey) (data tape : Bytes) :
+    rsaEncryptHashed P Q key data tape = rsaEncryptHashedCore P Q key data tape := by
+  have h : readsViaReadFull Facts.C14.hashedRandomReads = true := by decide
+  unfold rsaEncryptHashed; rw [h]; rfl
+
 /-! ## sizes -/
 
 theorem tempKeySize_eq : tempKeySize = 32 := rfl
@@ -169,7 +181,7 @@ theorem rsaPadLoop_eq_spec (P : Prims) (Q : NumPrims) (hQ : LawfulNum Q) (key : 
 theorem rsaPad_ok_of_full (P : Prims) (hP : LawfulPrims P) (Q : NumPrims) (key : PubKey)
     (hn : 256 ^ 256 ≤ key.n) (data tape : Bytes) (hd : data.length ≤ 144)
     (ht : tape.length = 192 - data.length + 32) : ∃ c, rsaPad P Q key data tape = .ok c := by
-  unfold rsaPad
+  rw [rsaPad_eq_core]; unfold rsaPadCore
   rw [rsaPadDataLimit_eq, dataWithPaddingLength_eq]
   have h1 : ¬ data.length > 144 := by omega
   have h2 : ¬ tape.length < 192 - data.length := by omega
